@@ -160,7 +160,8 @@ CLAIMS['C17']['text'] += FILL % "RST_STREAMs for application resets and for stre
 CLAIMS['C08']['text'] += " Family (d): Pad Length sweeps - every pad length 0..=len+1 for DATA / HEADERS / PUSH_PROMISE payloads of several sizes, with and without PRIORITY."
 CLAIMS['C18']['text'] += " Oversized header lists are also sent split across HEADERS + CONTINUATION inside fields; an explicit oracle flags an oversized list that is accepted; counters show that streams are actually accepted under the tiny limits (vacuity guard)."
 CLAIMS['C19']['text'] += " Further models: a peer stream window of 2 so that END_STREAM is queued behind flow-control-blocked DATA (client and server), RST_STREAM after the peer's END_STREAM and crossing the endpoint's own reset; and the server side (peer opens up to two streams with / without body, DATA, END_STREAM, RST_STREAM; the application responds, ends, resets, pushes, reads, drops RecvStream / SendResponse / SendStream in every order relative to polls) with the same leak oracle."
-CLAIMS['C19']['note'] = "Seven models (client: remember / expire / mid / blocked; server: remember / expire / blocked) share the tier budget; only completed depths are claimed."
+CLAIMS['C19']['text'] += " T1 half (X1): twelve client <-> server scenarios (resets / drops either side, early response, push, parked requests, tiny windows); for every execution with <= 2 (thorough 3) deviations in schedule, partial I/O and spurious Pending, at quiescence the snapshot hook is read on BOTH endpoints (same leak oracle), then the parked SendRequest is dropped and both connections must close cleanly."
+CLAIMS['C19']['note'] = "Eight X2 models (client: remember / expire / mid / blocked / push; server: remember / expire / blocked) and the T1 half share the tier budget; only completed depths / levels are claimed."
 CLAIMS['C07']['text'] += " Scenarios include push, graceful and abrupt shutdown, parked requests, client- and server-side connection drops. The user-ping handle across the end of the connection is checked with loom over the real ping_pong.rs (models end-*: every interleaving of 'pong arrives, connection dropped' with poll_pong / send_ping, and a drop in every state of the handle): afterwards every operation must fail within three steps, never stay Pending."
 CLAIMS['C20']['text'] += " (3) X4 idle-close models (threads-idle, threads-idle-mid): one SendRequest, up to two body-less requests answered completely by the peer; polling, reading and dropping of ResponseFuture / SendStream / RecvStream / the SendRequest itself on the second thread between polls or inside the connection's poll; from every state: everything is let go, nothing more arrives, and the connection must still send GOAWAY(NO_ERROR) and complete."
 CLAIMS['C09']['text'] = CLAIMS['C09']['text'].replace("32 states per", "39 states per")
